@@ -824,6 +824,7 @@ theorem insertBlock_none (txt : Str) : ∀ (tbl : Tbl Str), (∀ e ∈ tbl, (sub
 theorem C10_sd_text (d : Entries) : fmtSD .foam { data := d } = some (foamHeaderText ++ fmtPlain .foam d) := by
   rw [foamHeaderText_eq]
   simp only [fmtSD, C10.C10_banner_raw, insertIncludes, insertLineComments, List.foldl_nil, rts_header]
+  generalize foamHeader = H
   rfl
 
 /-- the raw text of the data of an SDict, before the comment / include insertion passes -/
